@@ -254,6 +254,34 @@ pub fn check_built_action(a: Action) -> Result<Stats, String> {
             }
         }
     }
+    // hand-off in the middle of an exchange: the agent has already asked for the request-time status and the
+    // log decision (the applied-rule bookkeeping is part of the state that must survive)
+    {
+        let mut used = a.clone();
+        let s0 = used.get_status_code(0, None);
+        let code = if s0 != 0 { s0 } else { 404 };
+        let _ = used.should_log_request(true, code, None);
+        let ju = serde_json::to_string(&used).map_err(|e| format!("serialise used action: {e}"))?;
+        let restored: Action = serde_json::from_str(&ju).map_err(|e| format!("the serialised (used) action does not deserialise: {e}: {ju}"))?;
+        let ju2 = serde_json::to_string(&restored).map_err(|e| e.to_string())?;
+        if ju2 != ju {
+            return Err(format!("used action: ser(de(ser(a))) != ser(a):\n  {ju}\n  {ju2}"));
+        }
+        let applied = |x: &Action| -> Vec<String> {
+            let mut v: Vec<String> = x.get_applied_rule_ids().iter().cloned().collect();
+            v.sort();
+            v
+        };
+        if applied(&used) != applied(&restored) {
+            return Err(format!("applied rule ids lost in the hand-off: {:?} before, {:?} after; json {ju}", applied(&used), applied(&restored)));
+        }
+        for &c in CODES {
+            let (ou, or) = (observe(&used, c), observe(&restored, c));
+            if ou != or {
+                return Err(format!("behaviour of a used action differs after the JSON round trip at code {c}:\n  original {ou:?}\n  restored {or:?}\n  json {ju}"));
+            }
+        }
+    }
     // the C JSON entry points are thin wrappers: same strings
     let via_ffi = unsafe { ffi_action_roundtrip(&j) }?;
     if via_ffi != j {
